@@ -150,6 +150,7 @@ type outcome struct {
 	LoadErr  string            `json:"load_error,omitempty"`   // NewConfiguration failed
 	Schema   bool              `json:"schema_rejected"`        // ... and the failure is the file's schema validation
 	UseErr   string            `json:"usability_error,omitempty"` // mechanism catalogue / default rule could not be created
+	errLines []string          // the individual messages of a load error
 	Canon    string            `json:"-"`
 	Leaves   map[string]string `json:"-"`
 	conf     *config.Configuration
@@ -178,11 +179,17 @@ func (w *world) load(file string, vars []envVar) *outcome {
 		defer func() {
 			if p := recover(); p != nil {
 				o.LoadErr = "panic: " + short(fmt.Sprint(p), 300)
+				o.errLines = []string{o.LoadErr}
 			}
 		}()
 		c, err := config.NewConfiguration(config.EnvVarPrefix(envPrefix), config.ConfigurationPath(path))
 		if err != nil {
 			o.LoadErr = short(err.Error(), 400)
+			for _, l := range strings.Split(err.Error(), "\n") {
+				if l = strings.TrimSpace(l); l != "" {
+					o.errLines = append(o.errLines, l)
+				}
+			}
 			if path != "" && config.ValidateConfig(path) != nil {
 				o.Schema = true
 			}
